@@ -321,7 +321,17 @@ class Check(object):
             fs = self.mod.run_case(self, stream, case) or []
         except InfraError:
             raise
-        except Exception as e:
+        except BaseException as e:
+            if type(e).__name__ == "BlockedForever":
+                # lib/tracked.py: the code under test tried to take a lock that is held and that nothing will ever release (operations are
+                # issued one at a time in the checks that use tracked locks): a thread of the real program would hang here for ever
+                frames = traceback.extract_tb(e.__traceback__)
+                repo = os.path.realpath(os.environ.get("VERIF_REPO", "/repo"))
+                inrepo = [f for f in frames if os.path.realpath(f.filename).startswith(repo + os.sep)]
+                where = "%s:%s" % (os.path.relpath(os.path.realpath(inrepo[-1].filename), repo), inrepo[-1].name) if inrepo else "?"
+                return [oracle("%s:blocks-forever@%s" % (self.pid, where), "stream %s, case %s: %s (in %s)" % (stream, json.dumps(case)[:300], e, where))]
+            if not isinstance(e, Exception):
+                raise
             tb = traceback.format_exc()
             # an exception raised INSIDE the code under test (innermost frame in the repository) on an input the harness built for it is
             # the code's behaviour, not a harness defect: it is reported with this input as the replay.  Anything raised by harness code
